@@ -19,8 +19,20 @@ ENC_OK = sockrun.ENC_OK if hasattr(sockrun, "ENC_OK") else 0
 def scripts(rng: random.Random, n: int):
     for _ in range(n):
         s = [("open",), ("adv", 1)]
-        mode = rng.randrange(11)
-        if mode == 10:
+        mode = rng.randrange(13)
+        if mode == 12:
+            # the caller of a send() whose write has just failed gives up (time-out / cancellation) while the client is
+            # resetting the link: the idempotent message must still be re-sent on the next connection
+            s += [("cancelclose",), ("failw",), ("send", rng.choice([0, 1, 4]), rng.choice([0, 0, 3])),
+                  ("adv", 5), ("adv", 50), ("send", rng.choice([0, 1, 4]), 0), ("adv", 50)]
+        elif mode == 11:
+            # the caller of a send() suspended in drain() gives up; the transport resumes; later sends are transmitted
+            s.append(("bp", 1))
+            s.append(("send", rng.choice([0, 1, 4]), rng.choice([0, 1, 3])))
+            if rng.random() < 0.5:
+                s.append(("send", rng.choice([0, 1, 4]), 0))
+            s += [("cancelsends",), ("bp", 0), ("adv", 5), ("send", rng.choice([0, 1, 4]), 0), ("send", rng.choice([0, 1, 4]), 0), ("adv", 50)]
+        elif mode == 10:
             # the connection dies (any OSError class) while a drain loop is suspended in drain(): that is a transient
             # write failure for the suspended message - with a retry left it is sent again on the next connection
             s.append(("bp", 1))
@@ -102,6 +114,7 @@ def monitor(gen: int, script, out, pid0: int) -> list[str]:
     must_write_from = None
     sub_send = None
     resend, lost_at, after_loss = set(), None, Counter()
+    resend_next = False
     for idx, (st, evs) in enumerate(zip(script, out)):
         sends = []
         if st[0] == "send":
@@ -113,6 +126,12 @@ def monitor(gen: int, script, out, pid0: int) -> list[str]:
             continue
         elif st[0] == "subsend":
             sub_send = (st[1], st[2]) if st[1] >= 0 else None
+            continue
+        elif st[0] == "cancelsends":
+            must_write_from = order           # whatever is accepted from now on must reach the wire
+            continue
+        elif st[0] == "cancelclose":
+            resend_next = True
             continue
         elif st[0] == "lostparked":
             # every message handed to the transport so far sits in a suspended drain loop (or behind it in the queue)
@@ -147,6 +166,11 @@ def monitor(gen: int, script, out, pid0: int) -> list[str]:
             _, life = sockrun.policy_params(pol) if hasattr(sockrun, "policy_params") else (None, int(sockrun.POLICIES[pol].max_lifetime * 1024))
             acc[next_pid] = (k, now, life, order)
             retries_of[next_pid] = sockrun.policy_params(pol)[0]
+            if resend_next:
+                resend_next = False
+                if retries_of[next_pid] >= 1:
+                    resend.add(next_pid)
+                lost_at = idx
             order += 1
             next_pid = (next_pid + 1) % 256
         for e in evs:
